@@ -122,6 +122,7 @@ func checkC04(c *Ctx) {
 	c.Floor("hidden.filter insertions", nFilter, 7, "filtered insertions in hclsyntax.Body, json.body and dynblock.expandBody")
 	appendSharedRule(c, "append.shared", c.Scope("hcl", "hclsyntax", "json", "ext/dynblock", "hcldec")...)
 	c04MergedRequired(c)
+	c18LabelCount(c) // a generated block matches the header schema it was made for
 	c04CopyIntoEmpty(c)
 	c04DeadFieldStore(c)
 	c.NotCovered("source order per block type, label-count diagnostics, and the two-step ≡ one-step law as a value equality")
